@@ -133,6 +133,11 @@ def run(tier, seed):
                                next_event=nxt, last_matched=ev[matched[i] - 1] if matched[i] else None,
                                fin=lines[i]["fin"]))
     chk.sample(dict(trace_cfg=lines[0]["cfg"], n_events=len(lines[0]["ev"])))
+    if tier == "thorough":
+        # unbounded safety of the stop protocol: Apalache inductive invariant on spec/TrainInd.tla, TLC
+        # refinement Train.tla => TrainInd.tla (skipped, never a failure, when Apalache is unavailable)
+        import ext_apalache
+        ext_apalache.run(chk, tier, seed)
     chk.assumptions += ["CPU only", "Timer callback (time=True) is unobserved; its presence must not change the events",
                         "at least one recording callback is in the list"]
     return chk.finish()
